@@ -698,7 +698,9 @@ def main():
     rjobs = []
     for lang in (None, 'c'):
         for which in c6.REV_LISTS:
-            if lang and which != 'statements' and not ck.thorough:
+            if which == 'languages' and not lang:
+                continue            # (the list of further languages belongs to the project with C targets)
+            if lang and which not in ('statements', 'languages') and not ck.thorough:
                 continue            # (quick tier: the option lists are edited in the language-less project only)
             edits = c6.rev_edits(lang, which)
             hists = [[e] for e in edits]
